@@ -162,11 +162,12 @@ def run(ctx):
         return 2
     rc, out = ctx.run_harness(binp, "TestVerifC13", timeout=1500)
     if rc != 0:
-        ctx.say("HARNESS-FAILED", out[-4000:])
-        # a crash of the real code under a forced schedule is a finding in its own right
+        # The harness itself failed (its own consistency checks `c13: ...`, a yield point that moved, a
+        # synctest deadlock, a build-level mismatch with private fields): that is a broken harness or an
+        # un-replayable tree, not evidence about the property -> exit 2, never a VIOLATION.
         m = re.search(r"(panic: .*|fatal error: .*|c13: .*)", out)
-        ctx.report("harness run on the real code failed: " + (m.group(1) if m else out[-300:]), {"output": out[-6000:]})
-        return ctx.finish(rule="", evaluations=0, distinct=0)
+        ctx.say("HARNESS-FAILED", (m.group(1) if m else ""), out[-4000:])
+        return 2
 
     total = 0
     distinct = set()
